@@ -26,6 +26,7 @@ THEOREMS = [{'name': f'Props.C06.{n}', 'module': M} for n in [
     'C06_F3_xml_empty_element_is_None', 'C06_xml_absent_element_is_nan', 'C06_F5_xml_missing_attribute_raises', 'C06_F5_fixed_shape',
     'naValuesOf_ne_nil',
     'C06_frame_can_deliver_null', 'C06_list_can_deliver_null',
+    'C06_current_order', 'C06_never_a_term_current', 'C06_current_json_drop', 'C06_F2_current', 'C06_F5_current', 'C06_F1_current',
 ]]
 RULE = ('logical tables of 0-5 rows over 2-4 columns with a NULL in every position (rate 0.3) and values that are NA tokens or contain them, '
         'rendered as CSV, TSV, JSON file (nested keys, null / absent), XML (absent / empty element, absent attribute), SQLite table, SQLite query, '
